@@ -210,6 +210,7 @@ template <class X> struct Q {
 };
 
 static Q<ApiA>* qA; static Q<ApiW>* qW;
+static void wide_above_255_list(Ctx& c);
 static void run_case(Ctx& c, uint64_t idx) {
     if (!qA) { qA = new Q<ApiA>(); qW = new Q<ApiW>(); }
     Rng& r = c.rng; uint64_t ns = nsplit(c), nh = nhuge(c);
@@ -255,7 +256,31 @@ static void run_case(Ctx& c, uint64_t idx) {
     Str q = gen_string(r, 30); for (int i = 0; i < 3; i++) if (!q.empty()) q[r.below((uint32_t)q.size())] = "&=&"[i];
     if (r.chance(1, 40)) { q.clear(); int m = COUNTS[r.below(18)]; for (int i = 0; i < m; i++) { if (i) q += '&'; q += gen_string(r, 3); if (r.coin()) { q += '='; q += gen_string(r, 3); } } for (auto& ch : q) if (!ch) ch = 'x'; c.count("dissect_many_items"); }
     if (r.coin()) qA->dissect_check(c, q, plus, (int)r.below(4), (int)r.below(3)); else qW->dissect_check(c, q, plus, (int)r.below(4), (int)r.below(3));
+    if (idx % 16 == 9) wide_above_255_list(c);
     if (idx % 3000 == 1) c.sample("list", esc(key.substr(0, 200)));
+}
+// Query lists with wide characters above U+00FF (wchar_t API): composed through the escaper, which writes such a character as the
+// triplet of its low byte -- the list that comes back from dissecting is another one. Recorded finding (same cause as C16's); the
+// diagnoser confirms exactly that behaviour, anything else is reported on its own.
+static void wide_above_255_list(Ctx& c) {
+    typedef ApiW X; typedef wchar_t Char; Rng& r = c.rng;
+    static const unsigned HI[] = {0x141, 0x142, 0x20AC, 0x416, 0x4E2D, 0xFFFD, 0x1F600, 0x2500, 0x100, 0x126, 0x13D, 0x22B};
+    auto mk = [&]() { std::basic_string<wchar_t> w; int n = (int)r.range(1, 5); for (int i = 0; i < n; i++) w.push_back(r.chance(1, 2) ? (wchar_t)HI[r.below(12)] : (wchar_t)r.range('a', 'z')); bool any = false; for (auto ch : w) any = any || (unsigned)ch > 255; if (!any) w.push_back((wchar_t)HI[r.below(12)]); return w; };
+    std::basic_string<wchar_t> k = mk(), v = mk(); bool hasValue = r.coin(); int plus = (int)r.below(2), nb = (int)r.below(2);
+    X::QList item; item.key = k.c_str(); item.value = hasValue ? v.c_str() : nullptr; item.next = nullptr;
+    int req = -1; int rc; { LibScope ls; rc = X::ComposeQueryCharsRequiredEx(&item, &req, plus, nb); } c.evaluations++; c.count("query_wide_above_255");
+    auto show = [](const std::basic_string<wchar_t>& w) { Str o; for (wchar_t ch : w) o += (unsigned)ch > 255 ? fmt("\\u{%X}", (unsigned)ch) : Str(1, (char)ch); return o; };
+    Str what = fmt("list [(\"%s\", %s)] spaceToPlus=%d normalizeBreaks=%d", show(k).c_str(), hasValue ? ("\"" + show(v) + "\"").c_str() : "NULL", plus, nb);
+    if (rc != URI_SUCCESS || req < 0) { c.violation("C17", "query/W/above-255/chars-required-failed", what + fmt(" rc=%d", rc)); return; }
+    std::vector<Char> out((size_t)req + 2, 0); int wr = -1; { LibScope ls; rc = X::ComposeQueryEx(out.data(), &item, req + 1, &wr, plus, nb); }
+    if (rc != URI_SUCCESS) { c.violation("C17", "query/W/above-255/required-size-not-sufficient", what + fmt(" rc=%d", rc)); return; }
+    size_t len = xstrlen<X>(out.data()); X::QList* back = nullptr; int cnt = -1; { LibScope ls; rc = X::DissectQueryMallocEx(&back, &cnt, out.data(), out.data() + len, plus, URI_BR_DONT_TOUCH); }
+    if (rc != URI_SUCCESS || cnt != 1 || !back) { c.violation("C17", "query/W/above-255/round-trip-differs-otherwise", what + fmt(" dissect rc=%d count=%d", rc, cnt)); if (back) { LibScope ls; X::FreeQueryList(back); } return; }
+    std::basic_string<wchar_t> gk(back->key), gv(back->value ? back->value : L""); bool gotValue = back->value != nullptr; { LibScope ls; X::FreeQueryList(back); }
+    auto low = [](const std::basic_string<wchar_t>& w) { std::basic_string<wchar_t> o; for (wchar_t ch : w) { wchar_t x = (unsigned)ch > 255 ? (wchar_t)((unsigned)ch & 0xFF) : ch; if (!x) break; o.push_back(x); } return o; };
+    if (gk == k && gotValue == hasValue && (!hasValue || gv == v)) { c.count("query_wide_above_255_round_trip_ok"); return; }
+    if (gk == low(k) && gotValue == hasValue && (!hasValue || gv == low(v))) c.violation("C17", "query/W/character-above-U+00FF-composed-as-its-low-byte", what);
+    else c.violation("C17", "query/W/above-255/round-trip-differs-otherwise", what);
 }
 static void fuzz_one(Ctx& c, const unsigned char* d, size_t n) {
     if (!qA) { qA = new Q<ApiA>(); qW = new Q<ApiW>(); }
